@@ -214,4 +214,42 @@ SPECS = {
             'agreement with the BIP38 specification is checked by round trip and address/compression checks, not by an independent BIP38 implementation',
         ],
     },
+    'C16': {
+        'property': 'C16',
+        'level': 'exploration',
+        'arms': [{
+            'name': 'objects',
+            'module': 'scenarios.c16_public',
+            'fault_kinds': [],
+            'tiers': {
+                'quick': {'runs': 1200, 'budget_s': 60, 'run_timeout_s': 60, 'shrink_budget_s': 40, 'params': {'arm': 'objects'}},
+                'thorough': {'runs': 40000, 'budget_s': 700, 'run_timeout_s': 120, 'shrink_budget_s': 120, 'params': {'arm': 'objects'}},
+            },
+        }, {
+            'name': 'storage',
+            'module': 'scenarios.c16_public',
+            'config_common': {'database_encryption_enabled': 'True'},
+            'env': {'DB_FIELD_ENCRYPTION_KEY': '11aa22bb33cc44dd55ee66ff77008899aabbccddeeff00112233445566778899'},
+            'fault_kinds': ['crash'],
+            'tiers': {
+                'quick': {'runs': 200, 'budget_s': 60, 'run_timeout_s': 90, 'shrink_budget_s': 40, 'params': {'arm': 'storage'}},
+                'thorough': {'runs': 6000, 'budget_s': 700, 'run_timeout_s': 180, 'shrink_budget_s': 120, 'params': {'arm': 'storage'}},
+            },
+        }],
+        'rule': ('objects arm: one run = 1-3 subjects (Key, HDKey master / child of every witness type, private HD Wallet) and 5-14 '
+                 'rounds of [0-4 priming calls drawn in any order: wif / wif_key / wif_private / as_dict(include_private) / info / '
+                 'deepcopy / pickle / subkey / public_master(as_private) / ...] followed by the public views (public(), '
+                 'public_master(), wif_public(), Wallet.wif(is_private=False), WalletKey.public(), default as_dict / as_json / repr / '
+                 'str / info, watch-only wallet from the export); storage arm (field encryption on): one run = a wallet history '
+                 '(keys, fund, update, send, reopen, crash) with scans of the database file and journal at commit points, after '
+                 'crashes and reopening. Non-trivial: >= 4 operations and >= 2 successful; distinct = distinct event-log digests.'),
+        'state_measure': 'n/a (digests only)',
+        'components': {'real': WALLET_REAL + ['bitcoinlib.db EncryptedBinary / EncryptedString (pycryptodome AES)'],
+                       'stub': WALLET_STUB},
+        'assumptions': [
+            'registered encodings per private key: 32 raw bytes, lower/upper hex, decimal, Python int (attribute walk), WIF compressed/uncompressed, extended private key under every prefix of the network (string and 78-byte payload)',
+            'ORM sessions, engines and DbKey/DbWallet back-references are not followed by the attribute walk (database handles, not the exported object)',
+            'Key.info()/HDKey.info() and WalletKey/DbKey repr of *private* objects print secrets by design; only recorded as known findings',
+        ],
+    },
 }
